@@ -40,6 +40,10 @@ structure Gate where
   controls : Option (List Nat)
   arg : ArgVal
   cctrl : Option (List Nat)      -- classical_controls
+  /-- `control_value` of the gate object (`None`: not given). These six fields are everything the exporter reads of a
+  gate object; `control_value` is read only on a tree with `Gen.exportChecksCv`. The class of the object and its
+  `target_gate` are never read: the QASM gate is chosen by `name` alone. -/
+  cv : Option Nat
 deriving DecidableEq, Repr
 
 inductive Op where
@@ -131,11 +135,21 @@ def defsLoop : List Op â†’ List (Str Ã— Str) â†’ Except Err (List (Str Ã— Str) Ã
         | .error e => .error e
         | .ok (m'', ls') => .ok (m'', ls ++ ls')
 
+/-- `control_value` is None, or there are controls and it is 2 ** len(controls) - 1 ("all control qubits 1") -/
+def cvOk (g : Gate) : Bool :=
+  match g.cv with
+  | none => true
+  | some v =>
+    match g.controls with
+    | some (c :: cs) => v == 2 ^ (c :: cs).length - 1
+    | _ => false
+
 /-- `Gate._to_qasm` -/
 def gateLine (m : List (Str Ã— Str)) (g : Gate) : Except Err Str :=
   match lookup m g.name with
   | none => .error .notImpl
   | some q =>
+    if Gen.exportChecksCv && !cvOk g then .error .notImpl else
     match g.cctrl with
     | some (_ :: _) => .error .notImpl
     | _ => qasmStr q g.controls g.targets g.arg
